@@ -25,6 +25,7 @@ EXPLANATION = (
     "checked against the signature of the constructor it reaches; the text writers' row arity and header encoding are "
     "compared with what the loaders unpack; numpy.loadtxt results that are unpacked or sliced along an axis must be "
     "loaded rank-stably. Float formatting precision is NOT decided."
+    ' R6 (sparse HDF5 layout: mask over the bin axis, one selection object, moved axis), R9 (file-name derivation agreement), R10 (constructors store same-named parameters), R11 (every member read from an HDF5 group reaches the restored object), R12 (every to_file / to_files opens its destination for writing) were added in later rounds.'
 )
 ASSUMPTIONS = [
     "h5py: group[name] raises KeyError for a name that was not created; create_dataset/create_group define the names",
